@@ -11,6 +11,7 @@ PROP = {
              "window is full or the new one empty, or >=2 groups of one remedy are active in one window (sequential unit); >=2 "
              "counters with >=1 rejection (isolation unit); a burst that is partly admitted (burst unit); distinct = canonical JSON of the case"),
     "assumptions": [
+        "the gateway's log level (LOG_LEVEL: off in three cases of eight, else error / info / debug / trace; what is logged is thrown away, what a log statement does to build its arguments happens) is a generated part of every case of TestSequentialWindows and TestBurst: no answer may depend on it; a failing case reports its level",
         "spill-over (spillover_config.enabled) is out of scope: it changes the allowed count per window by design and is always disabled here",
         "only code that reads the injected clock is covered; nothing on this path calls time.Now() directly (checked: the harness fails if the path registers clock timers)",
         "group header values have no leading/trailing blanks and each value is listed at most once in an allocation table",
